@@ -53,8 +53,21 @@ TRand == /\ IsEvent("rand")
          /\ Expect(Ev.mdiff = 0, "matcher-reads-outside-received-bytes")
          /\ UNCHANGED vars
 
+(* str{codec,layout,name,n,runs,tailsame,ms}: a directed string (Malformed!Directed) *)
+TStr == /\ IsEvent("str")
+        /\ \E d \in Directed : d.layout = Ev.layout /\ d.name = Ev.name
+        /\ \A i \in DOMAIN Ev.runs : LET r == Ev.runs[i] IN
+              /\ Expect(r.out # "panic", "decoder-panics")
+              /\ Expect(r.out # "loop", "decoder-loops")
+              /\ Expect(r.consumed <= Ev.n, "consumed-more-than-received")
+              /\ Expect(r.out = "more" => r.consumed = 0, "need-more-consumed-bytes")
+              /\ Expect(StrOK_Alloc(r.out, r.alloc, Ev.n), "alloc-before-arrival")
+        /\ Expect(Ev.tailsame, "reads-outside-received-bytes")
+        /\ \A i \in DOMAIN Ev.ms : Expect(Ev.ms[i].res \in {"again", "success", "failed"}, "matcher-panics")
+        /\ UNCHANGED vars
+
 TSkip == IsEvent("skip") /\ UNCHANGED vars
 
-TraceNext == TXdec \/ TRand \/ TSkip
+TraceNext == TXdec \/ TRand \/ TStr \/ TSkip
 TraceSpec == TraceInit /\ [][TraceNext]_tvars
 ====
